@@ -7,5 +7,6 @@ CONSTANTS
   MaxCancel = 1
   Defects = {}
   RankOf <- Ranks
-INVARIANTS AtMostOnce PerCallerFIFO OnlyAccepted Conservation BatchBound NoSilentDrop NoSilentDropQ
+INVARIANTS AtMostOnce PerCallerFIFO OnlyAccepted Conservation BatchBound NoSilentDrop NoSilentDropQ LockDiscipline
+PROPERTIES NoSendAfterStop
 CHECK_DEADLOCK FALSE
